@@ -12,9 +12,10 @@ package lmd
 // the full update / broken grace time and the host/service full scan are made due per tick by
 // shifting lastTimeperiodUpdateMinute, lastFullUpdate, lastFullHostUpdate/lastFullServiceUpdate;
 // "stale" shifts lastOnline. After every event the keys of all object tables (hosts with their
-// alias, a static column only a rebuild refreshes) and GET sites status/last_error are read
-// through lmd; while a tick runs a second goroutine keeps asking
-// `GET services / Columns: host_name description host_alias` and records the distinct answers.
+// alias, a static column only a rebuild refreshes), the status table's program_start / nagios_pid /
+// program_version (they identify the backend process: part of the served set) and GET sites
+// status/last_error are read through lmd; while a tick runs a second goroutine keeps asking
+// `GET services / Columns: host_name description host_alias` and `GET status` and records the distinct answers.
 // C11/Run.v compares with the model (always the correct order of side effects).
 
 import (
@@ -65,6 +66,8 @@ type c11Obs struct {
 	failed []bool
 	during []string // canonical answers of the concurrent reader ("F" = failed, otherwise sorted rows)
 	duringRows map[string][][3]string
+	srow    string   // GET status: "F" = failed, "E..." = unexpected answer, otherwise program_start \x00 nagios_pid \x00 program_version
+	sduring []string // ... as the concurrent reader got it
 }
 
 func init() {
@@ -97,6 +100,16 @@ func c11StatusName(st PeerStatus) string {
 	default:
 		return "Syncing"
 	}
+}
+
+// c11StatusRow: what the status table of the backend process number ident says about the process.
+type c11Status struct {
+	start, pid int64
+	version    string
+}
+
+func c11StatusRow(ident int) c11Status {
+	return c11Status{start: int64(1700000000 + 1000*ident), pid: int64(4000 + ident), version: fmt.Sprintf("1.4.2-process%d", ident)}
 }
 
 // ---- scripted dataset ---------------------------------------------------------------------
@@ -133,7 +146,7 @@ func c11Build(spec c11Dataset, ident int) map[string]*vTable {
 		res[name] = &vTable{Cols: tab.Cols}
 	}
 	res["status"].Rows = [][]interface{}{c11Clone(tmpl["status"], map[string]interface{}{
-		"program_start": float64(1700000000 + 1000*ident), "nagios_pid": float64(4000 + ident)})}
+		"program_start": float64(c11StatusRow(ident).start), "nagios_pid": float64(c11StatusRow(ident).pid), "program_version": c11StatusRow(ident).version})}
 	for i, k := range spec["timeperiods"] {
 		res["timeperiods"].Rows = append(res["timeperiods"].Rows, c11Clone(tmpl["timeperiods"], map[string]interface{}{"name": k[0], "alias": k[0], "id": float64(i)}))
 	}
@@ -265,6 +278,21 @@ func c11Columns(table string) string {
 	}
 }
 
+// statusQuery asks lmd for the status row of the backend.
+func (r *c11Runner) statusQuery() string {
+	rows, failed, err := r.keysQuery("GET status\nColumns: program_start nagios_pid program_version\nOutputFormat: wrapped_json\n\n", 3)
+	switch {
+	case err != nil:
+		return "E:" + err.Error()
+	case failed:
+		return "F"
+	case len(rows) != 1:
+		return fmt.Sprintf("E:%d status rows", len(rows))
+	default:
+		return strings.Join(rows[0], "\x00")
+	}
+}
+
 func (r *c11Runner) observe() c11Obs {
 	obs := c11Obs{status: "?"}
 	out, err := vQuery(r.lmd, "GET sites\nColumns: status last_error\nOutputFormat: json\n\n")
@@ -275,6 +303,7 @@ func (r *c11Runner) observe() c11Obs {
 	} else {
 		r.note("sites query failed")
 	}
+	obs.srow = r.statusQuery()
 	for _, table := range c11Tables {
 		cols := c11Columns(table)
 		keys, failed, err := r.keysQuery("GET "+table+"\nColumns: "+cols+"\nOutputFormat: wrapped_json\n\n", len(strings.Fields(cols)))
@@ -325,6 +354,15 @@ func (r *c11Runner) reader(stop chan struct{}, done chan struct{}, obs *c11Obs) 
 		if _, seen := obs.duringRows[key]; !seen && len(obs.during) < 8 {
 			obs.during = append(obs.during, key)
 			obs.duringRows[key] = list
+		}
+		// ... and for the status row of the same backend
+		srow := r.statusQuery()
+		known := false
+		for _, s := range obs.sduring {
+			known = known || s == srow
+		}
+		if !known && len(obs.sduring) < 8 {
+			obs.sduring = append(obs.sduring, srow)
 		}
 	}
 }
@@ -512,7 +550,7 @@ func c11RunCase(idx int, in *c11Input) (obs []c11Obs, notes []string) {
 			panic("c11: unknown event " + ev.Kind)
 		}
 		after := run.observe()
-		after.during, after.duringRows = step.during, step.duringRows
+		after.during, after.duringRows, after.sduring = step.during, step.duringRows, step.sduring
 		obs = append(obs, after)
 	}
 
@@ -647,6 +685,24 @@ func (n *c11Intern) ref(term string) string {
 	return name
 }
 
+// c11CoqSRow renders an observed status row as [option srow]; an unexpected answer becomes a row no process has.
+func c11CoqSRow(s string) string {
+	if s == "F" {
+		return "None"
+	}
+	parts := strings.Split(s, "\x00")
+	if len(parts) != 3 || strings.HasPrefix(s, "E:") {
+		return fmt.Sprintf("(Some (SR 0 0 %s))", coqStr("unexpected: "+s))
+	}
+	start, err1 := strconv.ParseUint(parts[0], 10, 63)
+	pid, err2 := strconv.ParseUint(parts[1], 10, 63)
+	if err1 != nil || err2 != nil {
+		return fmt.Sprintf("(Some (SR 0 0 %s))", coqStr("unexpected: "+s))
+	}
+
+	return fmt.Sprintf("(Some (SR %d %d %s))", start, pid, coqStr(parts[2]))
+}
+
 func c11Coq(idx int, in *c11Input, obs []c11Obs, ns, nq int, minute, full []int) string {
 	tabIntern := &c11Intern{prefix: fmt.Sprintf("c%d_t", idx), typ: "option (list (str * str))", names: map[string]string{}}
 	durIntern := &c11Intern{prefix: fmt.Sprintf("c%d_d", idx), typ: "option (list key3)", names: map[string]string{}}
@@ -688,12 +744,27 @@ func c11Coq(idx int, in *c11Input, obs []c11Obs, ns, nq int, minute, full []int)
 				during = append(during, durIntern.ref("Some "+coqList(rows)))
 			}
 		}
-		os = append(os, fmt.Sprintf("mkObs %s %s %s %s", o.status, coqBool(o.err), coqList(tabs), coqList(during)))
+		sduring := []string{}
+		for _, s := range o.sduring {
+			sduring = append(sduring, c11CoqSRow(s))
+		}
+		os = append(os, fmt.Sprintf("mkObs %s %s %s %s %s %s", o.status, coqBool(o.err), coqList(tabs), coqList(during), c11CoqSRow(o.srow), coqList(sduring)))
+	}
+
+	// the status row of every backend process of this history (index = identity, 0 is never used)
+	srows := []string{"SR 0 0 []"}
+	ident := 1
+	srows = append(srows, fmt.Sprintf("SR %d %d %s", c11StatusRow(ident).start, c11StatusRow(ident).pid, coqStr(c11StatusRow(ident).version)))
+	for _, ev := range in.Events {
+		if ev.Kind == "restart" {
+			ident++
+			srows = append(srows, fmt.Sprintf("SR %d %d %s", c11StatusRow(ident).start, c11StatusRow(ident).pid, coqStr(c11StatusRow(ident).version)))
+		}
 	}
 
 	return tabIntern.defs.String() + durIntern.defs.String() +
-		fmt.Sprintf("Definition c%d : case := mkCase %d%%nat %d%%nat %s %s %d%%nat %d%%nat\n %s\n %s\n %s.\n", idx, ns, nq, c11CoqNats(minute), c11CoqNats(full),
-			c11HostsIdx, c11SvcsIdx, coqList(dsets), coqList(events), coqList(os))
+		fmt.Sprintf("Definition c%d : case := mkCase %d%%nat %d%%nat %s %s %d%%nat %d%%nat\n %s\n %s\n %s\n %s.\n", idx, ns, nq, c11CoqNats(minute), c11CoqNats(full),
+			c11HostsIdx, c11SvcsIdx, coqList(dsets), coqList(srows), coqList(events), coqList(os))
 }
 
 // ---- generator ------------------------------------------------------------------------
